@@ -79,6 +79,8 @@ def _shape(interp, t, node):
 
 def _where(interp, args, kwargs, node):
     fl, sc, other = args
+    if fl.kind == "bool":          # scalar np.where(c, a, b)
+        return interp.merge(fl.z, sc, other)
     if not (fl.kind == "opaque" and fl.tag == "table" and fl.data["kind"] == "flag" and other.kind == "real" and other.special == "nan"):
         raise EngineError("np.where: only np.where(flag_table, scores, nan)")
     f, s = fl.data, sc.data
